@@ -60,9 +60,11 @@ PROPS = {
         "summary": ("Layout insignificance, lexer half: the contracts of the real skip_whitespace (skips exactly a maximal run of "
                     "space/tab/LF/FF/CR), skip_comment (consumes exactly up to and including the first LF or CR), try_consume_word "
                     "(any run of layout bytes between the words of a multi-word keyword; nothing consumed on failure) and "
-                    "scan_identifier_or_keyword (exact rollback after a failed lookahead) are verified by Verus for all inputs."),
+                    "scan_identifier_or_keyword (exact rollback after a failed lookahead) are verified by Verus for all inputs.  PARENTHESES (Verus, unit parser_paren: the Token::LParen arm of Parser::parse_expression): a parenthesised primary IS "
+                    "the node its inner expression parses to with binding power 0 -- no wrapper, nothing attached inside the arm, the continuation "
+                    "is left to the caller with the caller's binding power -- so redundant parentheses do not change the tree."),
         "not_covered": ("that statement boundaries depend on token kinds only is a two-run non-interference property of the 1300-line "
-                        "parser and is not expressible as a per-function contract here; string-token payloads; redundant parentheses."),
+                        "parser and is not expressible as a per-function contract here; string-token payloads; that the evaluator maps equal trees to equal values (parentheses: only the parser half is decided)."),
         "trusted_base": [VERUS_TRUST, "three facts about valid UTF-8 (see unit scanner)", "memchr_rs::memchr2 behaves as documented"],
     },
     "C18": {
